@@ -282,6 +282,20 @@ theorem canon_guard (b : Backend) (p : Str) (hp : Canon (Gen.PATH_REQUOTER.tab b
   · exact canon_normalizePath (path_lit47 b) hp
   · exact hp
 
+theorem canon_rooted (b : Backend) (p : Str) (hp : Canon (Gen.PATH_REQUOTER.tab b) p) :
+    Canon (Gen.PATH_REQUOTER.tab b) (rooted p) := by
+  unfold rooted
+  split
+  · exact hp
+  · exact canon_cons (path_lit47 b) hp
+
+/-- `with_path` since fix 7cae68c: the guard, then `normalize_path` of the rooted path -/
+theorem canon_guard_rooted (b : Backend) (p : Str) (hp : Canon (Gen.PATH_REQUOTER.tab b) p) (c : Bool) :
+    Canon (Gen.PATH_REQUOTER.tab b) (if c = true then normalizePath (rooted p) else p) := by
+  split
+  · exact canon_normalizePath (path_lit47 b) (canon_rooted b p hp)
+  · exact hp
+
 theorem ne_nil_of_not_isEmpty {s : Str} (h : s ≠ []) : (!s.isEmpty) = true := by
   cases s with
   | nil => exact absurd rfl h
@@ -419,6 +433,7 @@ theorem build_canon (e : Env) (a : BuildArgs) (u : Url) (henc : a.encoded = fals
   obtain ⟨qs, hqs, h⟩ := bind_ok h
   rw [henc] at h
   rw [if_neg (by decide)] at h
+  obtain ⟨sc, _, h⟩ := bind_ok h   -- the lowered scheme (fix e21485a)
   obtain ⟨netloc, hnl, h⟩ := bind_ok h
   obtain ⟨path, hpath, h⟩ := bind_ok h
   cases h
@@ -563,12 +578,10 @@ theorem withPath_canon (e : Env) (u : Url) (hu : CanonUrl e.b u) (path : Str) (h
     (kq kf : Bool) : CanonUrl e.b (withPath e u path false kq kf) := by
   have hnd := C15_entry_withPath e u path kq kf
   refine ⟨?_, ?_, ?_, hnd, ?_⟩
-  · unfold withPath
-    simp only [fromParts, Bool.not_false, if_true]
+  · rw [withPath_eq]
+    simp only [fromParts]
     apply canon_ensure_slash e.b
-    split
-    · exact canon_guard e.b _ (q_path_quoter_canon e _ hp)
-    · exact q_path_quoter_canon e _ hp
+    exact canon_guard_rooted e.b _ (q_path_quoter_canon e _ hp) _
   · unfold withPath
     show Canon _ (if kq = true then u.query else [])
     split
@@ -1019,16 +1032,27 @@ theorem parent_canon (b : Backend) (u : Url) (hu : CanonUrl b u) : CanonUrl b (p
   · rename_i hc
     simp only [Bool.or_eq_true, decide_eq_true_eq, not_or] at hc
     have hpne : u.path ≠ [] := fun e => hc.1 (by rw [e]; rfl)
+    -- under an authority the root fix of 264b96e ("/name" → "/" WITHOUT an authority) does not apply
+    have hfix : ∀ pp : Str, u.netloc ≠ [] →
+        (if (pp.isEmpty && decide (u.path.head? = some 47) && u.netloc.isEmpty) = true then [47] else pp) = pp := by
+      intro pp hn
+      have : u.netloc.isEmpty = false := by simpa using hn
+      rw [this, Bool.and_false]; rfl
     refine ⟨?_, Canon.nil, Canon.nil, ?_, ?_⟩
-    · exact path_join_canon b _ (fun s hs => path_segs_canon b hu.path s (List.dropLast_subset _ hs))
+    · simp only [fromParts]
+      split
+      · exact Canon.lit 47 [] (path_safe47 b) (by decide) (fun h => absurd h.2 (by decide)) Canon.nil
+      · exact path_join_canon b _ (fun s hs => path_segs_canon b hu.path s (List.dropLast_subset _ hs))
     · intro hn
       simp only [fromParts] at hn ⊢
+      rw [hfix _ hn]
       apply noDotSegments_joinC
       · exact PathAlg.segs_dropLast (PathAlg.segs_splitOn _)
       · intro s hs
         exact hu.nodots hn s (List.dropLast_subset _ hs)
     · intro hn
       simp only [fromParts] at hn ⊢
+      rw [hfix _ hn]
       rcases hu.rooted hn with h0 | h47
       · exact absurd h0 hpne
       · cases hp : u.path with
